@@ -5,12 +5,13 @@ static checks against the mutated tree and record which properties report it.
 Survivors nobody reports are printed for manual triage (many are equivalent or irrelevant
 to the 20 properties; the rest are gaps).
 
-usage: tools_mutscan.py <n_mutants> <seed> <out.jsonl> [file-substring ...]
+usage: tools_mutscan.py <n_mutants> <seed> <out.jsonl> [kind=<k1,k2>] [file-substring ...]
 Scratch copies live under /tmp/mutscan and are removed as soon as a mutant is done."""
 import ast, json, os, random, shutil, subprocess, sys
 
 N, SEED, OUT = int(sys.argv[1]), int(sys.argv[2]), sys.argv[3]
-ONLY = sys.argv[4:]
+ONLY = [a for a in sys.argv[4:] if not a.startswith("kind=")]
+KINDS = [k for a in sys.argv[4:] if a.startswith("kind=") for k in a[5:].split(",")]
 REPO = "/repo"
 LIB = os.path.join(REPO, "Lib", "ufo2ft")
 SCRATCH = "/tmp/mutscan"
@@ -56,7 +57,10 @@ def sites_of(path):
             target = list(ast.walk(t))[i]
             mutate(target)
             ast.fix_missing_locations(t)
-            return ast.unparse(t)
+            txt = ast.unparse(t)
+            if '_ident_' in txt:
+                txt = txt + '\n\ndef _ident_(x):\n    return x\n'
+            return txt
         out.append(Site(path, kind, getattr(node, "lineno", 0), desc, apply))
 
     for n in ast.walk(tree):
@@ -105,6 +109,47 @@ def sites_of(path):
             def m(t):
                 t.op = ast.Sub() if isinstance(t.op, ast.Add) else ast.Add()
             mk("plus-minus", n, T(n)[:70], m)
+        # --- second-generation operators (realistic regressions rather than arithmetic noise)
+        if isinstance(n, ast.Call) and len(n.args) == 1 and not n.keywords and T(n.func) in ("list", "dict", "set", "copy.copy", "copy.deepcopy", "deepcopy", "copy", "tuple", "frozenset"):
+            def m(t):
+                t.func = ast.Name(id="_ident_", ctx=ast.Load())
+            mk("drop-copy", n, f"{T(n)[:60]} -> argument itself", m)
+        if isinstance(n, ast.Call) and isinstance(n.func, ast.Attribute) and n.func.attr in ("copy",) and not n.args:
+            def m(t):
+                t.func = ast.Name(id="_ident_", ctx=ast.Load())
+                t.args = [n.func.value]
+            mk("drop-copy", n, f"{T(n)[:60]} -> receiver itself", m)
+        if isinstance(n, (ast.Assign, ast.AugAssign)) and isinstance(parents.get(n), (ast.FunctionDef, ast.If, ast.For, ast.With, ast.While, ast.Try)):
+            tg = n.targets[0] if isinstance(n, ast.Assign) else n.target
+            if isinstance(tg, (ast.Attribute, ast.Subscript)) or isinstance(n, ast.AugAssign):
+                def m(t):
+                    t.value = t.value
+                    t.__class__ = ast.Pass
+                    t._fields = ()
+                mk("del-store", n, f"delete `{T(n)[:70]}`", m)
+        if isinstance(n, ast.Call) and n.keywords and not in_noise(n):
+            for ki, kw in enumerate(n.keywords):
+                if kw.arg is None:
+                    continue
+
+                def m(t, ki=ki):
+                    del t.keywords[ki]
+                mk("drop-kwarg", n, f"drop {kw.arg}= from {T(n.func)[:40]}", m)
+        if isinstance(n, ast.UnaryOp) and isinstance(n.op, ast.Not) and not isinstance(parents.get(n), ast.If):
+            def m(t):
+                t.op = ast.UAdd()
+                t.operand = ast.Call(func=ast.Name(id="bool", ctx=ast.Load()), args=[t.operand], keywords=[])
+            mk("drop-not", n, f"{T(n)[:60]}", m)
+        if isinstance(n, (ast.Continue, ast.Break)):
+            def m(t):
+                t.__class__ = ast.Pass
+            mk("del-jump", n, f"{type(n).__name__.lower()} -> pass (line {n.lineno})", m)
+        if isinstance(n, ast.Return) and n.value is not None and not isinstance(n.value, ast.Constant) and isinstance(parents.get(n), ast.If):
+            pass
+        if isinstance(n, ast.Subscript) and isinstance(n.slice, ast.Constant) and isinstance(n.slice.value, int) and n.slice.value in (0, 1, -1) and isinstance(n.ctx, ast.Load):
+            def m(t):
+                t.slice = ast.Constant(value={0: -1, 1: 0, -1: 0}[t.slice.value])
+            mk("index", n, f"{T(n)[:50]} other end", m)
     return out
 
 
@@ -122,6 +167,8 @@ def main():
             all_sites += sites_of(p)
         except SyntaxError:
             pass
+    if KINDS:
+        all_sites = [x for x in all_sites if x.kind in KINDS]
     rnd = random.Random(SEED)
     rnd.shuffle(all_sites)
     chosen = all_sites[:N]
